@@ -54,7 +54,13 @@ def run_history(r, module, letter, spec, cls, n_ops, stream, ctx, lines, pend):
     planted_ts = set()
     for step in range(n_ops):
         kind = r.choice(["C", "C", "S", "RS", "AP", "AC", "N", "FRESH"]) if recs else "C"
-        before = [copy.deepcopy(x.to_dict()) for x in recs]
+        try:
+            before = [copy.deepcopy(x.to_dict()) for x in recs]
+        except Exception as e:  # noqa
+            if oracle_msg is None:
+                oracle_msg = ("render-raises", "a record that was constructed without error cannot be rendered (%s: %s)"
+                              % (type(e).__name__, str(e)[:80]))
+            break
         target = None
         try:
             if kind in ("C", "FRESH"):
@@ -130,7 +136,13 @@ def run_history(r, module, letter, spec, cls, n_ops, stream, ctx, lines, pend):
                 continue
         except Exception as e:  # noqa  (an operation the real classes refuse: not part of the history)
             continue
-        after = [x.to_dict() for x in recs]
+        try:
+            after = [x.to_dict() for x in recs]
+        except Exception as e:  # noqa
+            if kind in ("C", "FRESH") and oracle_msg is None:
+                oracle_msg = ("render-raises", "a record that was constructed without error cannot be rendered (%s: %s)"
+                              % (type(e).__name__, str(e)[:80]))
+            break
         renders.append(after)
         # oracle: only the targeted record may have changed
         for i, (b, a) in enumerate(zip(before, after)):
